@@ -23,21 +23,21 @@ def P(units, text, note, **kw):
 
 
 PROPS = {
-    "C01": P(["lifecycle", "handle", "handle_slices", "provider", "store", "waitpay", "paystate"],
+    "C01": P(["lifecycle", "handle", "handle_slices", "provider", "store", "waitpay", "paystate", "rpc"],
              "Proof (Verus, unbounded) on payment_lifecycle/resolve as extracted from src/htlc_manager.rs: every Resolve answer carries a key that is the preimage of a completed outgoing part of this hash or of its durable Succeeded record (hence preimage_of(hash)); the pay request carries the invoice and hash of this lifecycle.",
              LIFE_NOTE, assumptions=A_WORLD,
              not_covered=["CLN's own verification of the key", "SHA-256 itself (preimage_of is uninterpreted)"]),
-    "C02": P(["lifecycle", "store", "provider", "handle", "handle_slices", "waitpay", "paystate"],
+    "C02": P(["lifecycle", "store", "provider", "handle", "handle_slices", "waitpay", "paystate", "rpc"],
              "Proof (Verus, unbounded): at each of the ten resolve(..) call sites of payment_lifecycle a Fail answer requires !live(w) && !pay_running in the ghost world, starting from ANY world that satisfies only the durable invariant (every restart image), under the rely (every interleaving). Known finding F-C02-a (read error of the stored state) is reported per call site.",
              LIFE_NOTE, assumptions=A_WORLD,
              not_covered=["that CLN's pay is not still running after a plugin-only restart (not observable through the RPCs used)"]),
-    "C03": P(["lifecycle", "fee", "paystate", "provider", "waitpay", "handle", "handle_slices"],
+    "C03": P(["lifecycle", "fee", "paystate", "provider", "waitpay", "handle", "handle_slices", "rpc"],
              "Proof (Verus): the single pay call site requires fee_rhs(policy, amount) <= held total, max_fee <= held total (as read at initiation) - amount, the amount rule, the invoice of this hash, and that the counted HTLCs are still unanswered.",
              LIFE_NOTE, assumptions=A_WORLD + ["sum of simultaneously held HTLC amounts < 2^64 msat"]),
-    "C04": P(["lifecycle", "handle", "handle_slices", "provider", "height", "paystate"],
+    "C04": P(["lifecycle", "handle", "handle_slices", "provider", "height", "paystate", "config"],
              "Proof (Verus): at the pay call site max_cltv_delta <= max(0, min expiry of the HTLCs held at initiation - height returned by current_height() - cltv_delta) and <= policy delta; the arithmetic of src/htlc_manager.rs:576-583 is verified in place.",
              LIFE_NOTE, assumptions=A_WORLD),
-    "C05": P(["lifecycle", "store", "provider", "waitpay"],
+    "C05": P(["lifecycle", "store", "provider", "waitpay", "rpc"],
              "Proof (Verus): pay requires !live(w) && !pay_running; a Succeeded record is never followed by add_payment_attempt/pay; add_payment_attempt never overwrites a Succeeded record; the Free write of mark_failed is generation guarded (Released-phase rely).",
              LIFE_NOTE, assumptions=A_WORLD),
     "C06": P(["lifecycle", "fee", "paystate", "tlv_dec", "handle", "handle_slices", "store", "provider", "waitpay", "height", "tlv_enc", "tlv_get"],
@@ -48,16 +48,16 @@ PROPS = {
              "Proof (Verus, unbounded loop invariant): PaymentState::resolve gives every held listener exactly the one response and records it for late HTLCs; add_htlc never signals readiness once failure was requested; fail() is first-wins and only carries Fail; lifecycle resolves exactly once.",
              LIFE_NOTE + " oneshot::Sender::send is linear, so the prophecy `fate` is sound.", assumptions=A_WORLD,
              not_covered=["a rejecting HTLC arriving after readiness was signalled is by design ignored (statement says still-incomplete set)"]),
-    "C08": P(["lifecycle", "store", "provider", "waitpay"],
+    "C08": P(["lifecycle", "store", "provider", "waitpay", "rpc"],
              "Proof (Verus): durable invariant inv(w) (live or pay running => record Pending|Succeeded; Succeeded holds preimage_of(hash)) is preserved by every atomic step of payment_lifecycle: pay requires a durable Pending; mark_failed requires (generation still matches => nothing live); mark_succeeded requires the preimage of a completed part; rely steps preserve inv (lemma_rely_preserves_inv). Every prefix of every execution therefore satisfies inv.",
              LIFE_NOTE, assumptions=A_WORLD, not_covered=["durability of CLN's datastore itself"]),
-    "C09": P(["lifecycle", "store"],
+    "C09": P(["lifecycle", "store", "rpc"],
              "Proof (Verus) on the lifecycle side: started from any durable image, a Succeeded record is replayed; recovery writes are required to succeed absent faults by the store interface contract.",
              LIFE_NOTE, assumptions=A_WORLD, not_covered=["'eventually retried' is the sender's behaviour"]),
-    "C11": P(["lifecycle", "paystate"],
+    "C11": P(["lifecycle", "paystate", "config"],
              "Proof of the lower bound (Verus): a temporary_trampoline_failure produced with no attempt and no policy rejection implies now >= wait_started + mpp_timeout; every sleep is at most one mpp_timeout; timer/zero-time branches return without add_payment_attempt/pay; readiness is signalled only when the amounts actually received cover amount + fee (unit paystate), so an incomplete set never starts a payment. The upper bound is not applicable (timer/scheduler latency).",
              LIFE_NOTE + " NOT APPLICABLE clause: the upper bound on the failure time.", assumptions=A_WORLD),
-    "C12": dict(P(["fee", "handle", "handle_slices", "paystate", "lifecycle"],
+    "C12": dict(P(["fee", "handle", "handle_slices", "paystate", "lifecycle", "config"],
              "Proof (Verus, unbounded): fee_sufficient as extracted from src/messages.rs satisfies the exact integer predicate of the statement for all u64 x u64 x u32 x u32 outside the region of known finding F-C12-a, never answers true when the exact predicate is false anywhere, and has no overflow/panic. One proof covers checked and wrapping builds because no overflow occurs. Third clause: the gate of handle_htlc requests the policy-carrying failure for a too-low declared total / relative expiry (unit handle_slices), PaymentState::fail keeps the first requested failure (unit paystate), and payment_lifecycle answers the set with exactly the failure it took out of the fail channel (unit lifecycle, ghost fail_received).",
              "Trusted: " + TB_COMMON + " vstd specs of checked_mul/checked_add. Known finding F-C12-a (amount*ppm >= 2^64 answers false) is excluded by region and reported as KNOWN-FINDING.",
              assumptions=[]),
@@ -69,7 +69,7 @@ PROPS = {
              "when_fails": "fee::messages::TrampolineRoutingPolicy::fee_sufficient::ensures#exact_outside_mul_overflow_region", "obligation": "fee::messages::TrampolineRoutingPolicy::fee_sufficient::kani#exact_outside_mul_overflow_region", "fn": "messages::TrampolineRoutingPolicy::fee_sufficient"},
             {"harness": "fee_sufficient_exact_inside_mul_overflow_region", "role": "witness", "tier": "thorough", "timeout": 300, "obligation": "fee::messages::TrampolineRoutingPolicy::fee_sufficient::kani#exact_inside_mul_overflow_region", "fn": "messages::TrampolineRoutingPolicy::fee_sufficient"},
         ], kani_quick=True),
-    "C14": P(["lifecycle", "store", "paystate", "handle", "handle_slices"],
+    "C14": P(["lifecycle", "store", "paystate", "handle", "handle_slices", "rpc"],
              "Proof of the two mechanisms (Verus): no RPC / channel wait / timer is started while the table lock is held (every such env call requires !lock_held; lock scope by ghost unlock marker E7). The scheduling statement itself is not applicable.",
              LIFE_NOTE + " NOT APPLICABLE clause: 'a frozen RPC of A does not delay B' (liveness of tokio's scheduler).", assumptions=A_WORLD),
 }
@@ -77,19 +77,22 @@ PROPS = {
 HANDLE_NOTE = ("Trusted: " + TB_COMMON + " env/invoice.rs (utf-8, str::parse, lightning_invoice accessors: parse_any/sig_ok/hash/amount/payee/route_hints are uninterpreted views of the dependency), "
                "env/bytes.rs; SerializedTlvStream::{get,remove,from_bytes,to_bytes,get_tu64} enter under their interface contracts (proved in units tlv_get/tlv_dec/tlv_enc where stated; get/remove are proved on their real bodies against env/vec_model.rs, the std Vec/slice-iterator model). "
                "handle_htlc is verified whole (closure body verbatim; payment_lifecycle enters as a contract-less stub, so the spawn is a hand-over that is not under contract) and additionally as two E6 statement slices (classification prefix with the no-side-effect clause, gate under the lock). Assumed: every table entry satisfies the representation invariant (entries are only created by PaymentState::new and changed by add_htlc/fail/resolve); a listener handed to add_htlc is eventually answered (liveness).")
-PROPS["C10"] = P(["handle", "handle_slices", "tlv_dec", "tlv_get"],
+TU64_KANI = {"harness": "tu64_decodes_exactly", "flags": ["-Z", "stubbing"], "timeout": 900,
+      "obligation": "tlv::tlv::ProtoBuf::get_tu64::kani#tu64", "fn": "tlv::ProtoBuf::get_tu64",
+      "scope": "every content of every field of 0..=9 bytes (the lengths the statement quantifies over; unwinding assertions on); alloc::fmt::format and Backtrace::capture are stubbed (text of the error message / backtrace of the anyhow error are irrelevant)"}
+PROPS["C10"] = dict(P(["handle", "handle_slices", "tlv_dec", "tlv_get", "config"],
     "Proof (Verus): extract_trampoline_info/check_htlc verbatim: Trampoline(t) only if the metadata decodes, carries record 33001 whose utf-8 text parses to t.invoice, signature valid, invoice hash == HTLC hash, payee = signing key, amount rule (invoice amount, agreeing well-formed amount field; else exactly the declared amount), policy = configured; self-route-hint gate including the not-found half of the search (E8 closure contracts + env find).",
-    HANDLE_NOTE, assumptions=["lightning_invoice parse/check_signature/get_payee_pub_key/route_hints behave as their uninterpreted views", "std iter().find returns the first match or None if no element matches (env HintIter::find)"])
+    HANDLE_NOTE, assumptions=["lightning_invoice parse/check_signature/get_payee_pub_key/route_hints behave as their uninterpreted views", "std iter().find returns the first match or None if no element matches (env HintIter::find)"]), kani=[TU64_KANI], kani_quick=True)
 PROPS["C13"] = P(["handle", "handle_slices", "tlv_enc", "tlv_dec", "tlv_get"],
     "Proof (Verus): the classification prefix of handle_htlc returns Continue (payload None, or the input records minus the first type-16 record, byte for byte and in order) or the self-hint Fail, with the ghost world unchanged (no RPC, no table access) on every path; check_htlc/default_response verbatim.",
     HANDLE_NOTE, assumptions=["std Vec / slice iteration semantics of env/vec_model.rs (find/position return the first match; Vec::remove removes exactly that element) under which get/remove are proved in unit tlv_get"])
 
-PROPS["C15"] = P(["waitpay"],
+PROPS["C15"] = P(["waitpay", "rpc"],
     "Proof (Verus, unbounded loop invariants): PayPaymentProvider::wait_payment verbatim against a node model with per-part sets: Ok(Some(p)) only if p is the preimage of a completed part; Ok(None) only if at return no part of the hash is pending or complete, for every number of parts, every order in which the waitsendpay results are consumed (FuturesUnordered is demonic), parts resolving at any time between the RPCs (node rely), and every error code (202/203/204/208/209 do not end the wait). On the pinned tree the clause no_part_completed_unseen_between_the_two_listings failed for the join! of the two listings (D5, fixed).",
     "Trusted: " + TB_COMMON + " env/waitpay_env.rs: listsendpays returns a snapshot of the parts with the requested status taken when the node serves the call; waitsendpay returns when its part is no longer pending; parts only resolve while no pay command runs; env models of iter().filter_map().next(), by-value iteration (vstd IteratorSpecImpl) and FuturesUnordered (under E2 the pushed calls have run; next() returns results in arbitrary order -- sound for this function because its postconditions are stable under the rely). The ghost is unit-local (Node with part sets); the World-based interface contract of wait_payment used by units provider/lifecycle states the same two clauses over the summary fields (pending count / complete).",
     assumptions=["no pay command for the hash is running while wait_payment runs (its callers establish this)", "CLN lists every part of the hash with the requested status"])
 
-PROPS["C16"] = P(["provider", "waitpay"],
+PROPS["C16"] = P(["provider", "waitpay", "rpc"],
     "Proof (Verus): PayPaymentProvider::pay verbatim against the node model of env/cln_pay.rs (COMPLETE => preimage of a completed part; FAILED without partial-completion warning => nothing live; PENDING / FAILED+warning / RPC error => nothing known) and wait_payment's contract: Ok(p) only with the preimage of a completed part; Err only when nothing is pending or complete -- except at the three exits of known finding F-C16-a. The PayRequest handed to the node carries maxfee/maxdelay/amount/bolt11 verbatim and no other fee knob (C03/C04).",
     "Trusted: " + TB_COMMON + " env/cln_pay.rs (pay status semantics; a pay RPC that has returned creates no further parts); wait_payment enters under its interface contract (C15).",
     assumptions=A_WORLD + ["a pay command that has returned (result or RPC error) creates no further parts"])
@@ -107,24 +110,25 @@ PROPS["C19"] = P(["config", "provider"],
     assumptions=["CLN delivers the option values (handle_init) as configured"],
     not_covered=["statements of main() between the two slices"])
 
-PROPS["C20"] = P(["height"],
+PROPS["C20"] = P(["height", "rpc"],
     "Proof (Verus): update_height leaves the shared cell at max(value found under the lock, new height) = the maximum of all heights told so far, never lower than before; new_block, poll_height and current_height reach the cell only through update_height / a read under the same mutex. Holds under every interleaving because the update is one critical section and every other updater guarantees the same postcondition. Catch-up clause in its safety form: the polling task poll_forever (verbatim, E3 on its select!, loop invariant) never asks the timer for a wait longer than the declared POLL_INTERVAL and starts a new wait only when every earlier wake-up was followed by a poll_height call (failed polls included); a successful poll leaves the height at least at what the node reported. That the timer fires and the task is scheduled in time is not applicable.",
     "Trusted: " + TB_COMMON + " env/height_env.rs (tokio Mutex<u32>: exclusive access; other holders only run update_height). env timer/shutdown channel of poll_forever with ghost wake-up counters (PollGhost). POLL_INTERVAL enters by E13 (exec const + reflection contract). NOT APPLICABLE part of the catch-up clause: that tokio's timer fires on time and the task gets scheduled (liveness); start()'s spawn of poll_forever is not under contract.",
     assumptions=["only the functions of block_watcher.rs write the height cell (field is private to the module)"])
 
-PROPS["C18"] = P(["tlv_dec", "tlv_enc", "tlv_get"],
+PROPS["C18"] = dict(P(["tlv_dec", "tlv_enc", "tlv_get"],
     "Proof (Verus, unbounded loop invariant): get_compact_size, SerializedTlvStream::from_bytes and try_from(Vec<u8>) as extracted from src/tlv.rs are total (every bytes::Buf getter's remaining-length precondition is discharged: no panic on any byte string) and return exactly parse(bytes) of the BigSize/TLV spec functions in specs/tlv_spec.rs. Encoder: put_compact_size appends exactly cs_enc(x) (minimal BigSize), to_bytes returns the concatenation of the record encodings (loop invariant), and lemma_cs_roundtrip proves cs_dec(cs_enc(x) ++ rest) == (x, len) for all u64. Lemmas (checked on every run): lemma_parse_of_encoding: parse(enc_all(es)) == Some(es) for every record sequence (encode-then-decode reproduces the records), lemma_decode_then_encode: for every byte string that is an encoding (valid, minimally encoded stream) decoding then encoding reproduces the bytes. Composed with from_bytes == parse and to_bytes == enc_all this is the lossless clause for the real functions. Record access: get returns the first record of the type (None iff there is none), remove deletes exactly that record and keeps all others byte for byte and in order (unit tlv_get, real bodies, hint-free).",
-    "Trusted: " + TB_COMMON + " env/bytes.rs (mirror of bytes::Buf: big-endian getters, panic preconditions), AsRef view, 64-bit usize. get_tu64 is under an assumed contract in this unit (slice-range copy_from_slice / from_be_bytes are outside Verus' subset).",
+    "Trusted: " + TB_COMMON + " env/bytes.rs (mirror of bytes::Buf: big-endian getters, panic preconditions), AsRef view, 64-bit usize. get_tu64 (slice-range copy_from_slice / from_be_bytes are outside Verus' subset) is a contract-only stub in the Verus units and is decided by the Kani harness tu64_decodes_exactly on the real function for every content of every field of 0..=9 bytes.",
     assumptions=["env/bytes.rs describes bytes-1.6 Buf for &[u8], Bytes and Take<Bytes>", "64-bit target"],
-    bounded=[])
+    bounded=[]), kani=[TU64_KANI], kani_quick=True)
 
 NOT_APPLICABLE = {
 }
-HOOK_COMMITS = ["a595cb4", "8d4e42a", "747697f", "d2148d0", "01828dc", "e05e365", "7bebe0f"]
+HOOK_COMMITS = ["a595cb4", "8d4e42a", "747697f", "d2148d0", "01828dc", "e05e365", "7bebe0f", "3c90e2c"]
 NOTES = "Contract-based deductive verification of the real code; see DESIGN.md. exit 2 = undecided (never a VIOLATION)."
 
 # where a function that other units enter as a contract-only stub is actually proved
 PROVED_IN = {
+    "rpc::ClnRpc::*": "unit rpc (src/rpc.rs hands back exactly what the node answered; the env contracts of ClnRpc used by units store/provider/waitpay/height describe the node behind it)",
     "messages::HtlcFailReason::encode": "Kani harnesses encode_policy_exact / encode_constants_exact (full input domain), run by ./check C12",
     "messages::TrampolineRoutingPolicy::fee_sufficient": "unit fee",
     "htlc_manager::PaymentState::resolve": "unit paystate",
@@ -132,6 +136,7 @@ PROVED_IN = {
     "htlc_manager::PaymentState::fail": "unit paystate",
     "tlv::ProtoBuf::get_compact_size": "unit tlv_dec",
     "tlv::SerializedTlvStream::get": "unit tlv_get",
+    "tlv::ProtoBuf::get_tu64": "Kani harness tu64_decodes_exactly (every content of every field of 0..=9 bytes), run by ./check C10 and ./check C18",
     "tlv::SerializedTlvStream::remove": "unit tlv_get",
     "tlv::SerializedTlvStream::from_bytes": "unit tlv_dec",
     "tlv::SerializedTlvStream::try_from": "unit tlv_dec",
